@@ -212,13 +212,13 @@ theorem nanminO_cons (v : List (Option ℝ)) (a : ℝ) (l : List ℝ) (h : delet
   rw [h, List.foldl_cons]
   exact foldl_min_some _ (fun _ _ => rfl) l a
 
-theorem shiftMinO_scatter (c : ℝ) (m : List Bool) (vals : List ℝ) (h : vals.length = m.count true) :
+theorem shiftMinO_scatter (c : ℝ → ℝ → ℝ) (m : List Bool) (vals : List ℝ) (h : vals.length = m.count true) :
     shiftMinO c (scatter m vals) =
       scatter m (match vals with
         | [] => []
         | a :: l =>
           let mn := l.foldl (fun b y => if y < b then y else b) a
-          vals.map (fun y => y - mn + c)) := by
+          vals.map (fun y => c y mn)) := by
   unfold shiftMinO
   cases vals with
   | nil => rw [nanminO_nil _ (delete_scatter' m [] h)]
@@ -285,7 +285,7 @@ theorem okAll_common (m : List Bool) (stack : List (List (Option ℝ))) (hne : s
 
 /-- `x / sqrt(xᵀ V⁻¹ x)` on a full vector -/
 noncomputable def whitenRow (V : List (List ℝ)) (x : List ℝ) : List ℝ :=
-  x.map (fun a => a / HasSqrt.sqrt (dot x (solve V x)))
+  x.map (fun a => a / nonzero (HasSqrt.sqrt (dot x (solve V x))))
 
 theorem whitenRow_length (V : List (List ℝ)) (x : List ℝ) : (whitenRow V x).length = x.length := by
   simp [whitenRow]
